@@ -11,13 +11,17 @@ def aff(p):
     return [x for x in LEDGER if x != p]
 
 F = []
-def open_(prop, id_, sig, also, what, witness, flags, affects=None, cells=None, cell_kinds=None):
+def open_(prop, id_, sig, also, what, witness, flags, affects=None, cells=None, cell_kinds=None, cells2=None, cell_kinds2=None):
     F.append(dict(property=prop, id=id_, status="open", signature=sig, also=also, what=what, witness=witness, trigger_off=flags,
                   affects=aff(prop) if affects is None else affects))
     if cells:
         # cells of C03's (pending state|discarding command|follow-up) table that fail because of this finding, and with which rules
         F[-1]["cells"] = cells
         F[-1]["cell_kinds"] = cell_kinds
+    if cells2:
+        # cells of C02's (operation|upstream change|agent-line position) table
+        F[-1]["cells2"] = cells2
+        F[-1]["cell_kinds2"] = cell_kinds2
 def fixed(prop, id_, grep, what, witness):
     c = fixc(grep)
     assert c, grep
@@ -133,7 +137,8 @@ open_("C02", "D23", "C02/lost@f.txt:1", ["C02/lost@f.txt:5"],
       "c02.squash_merge_with_conflict", ["squash_conflicts"])
 open_("C02", "D2", "C02/lost@f.txt:9", ["C02/lost@f.txt:10"],
       "history: AI session appends 2 lines to f.txt; `git stash push`; a commit inserts 2 lines at the top of f.txt; `git stash pop`; commit => the AI lines (now 9-10) are human because restore_stash_attributions copies the stashed line numbers (7-8) verbatim",
-      "c02.stash_pop_after_upstream_inserted_above", ["stash_between_same_file"])
+      "c02.stash_pop_after_upstream_inserted_above", ["stash_between_same_file"],
+      cells2=["stash-pop|above|*", "stash-pop|both|*", "stash-pop|below|last", "stash-apply|above|*", "stash-apply|both|*", "stash-apply|below|last"], cell_kinds2=["C02/lost"])
 open_("C02", "D29", "C03/unsound-note@f.txt:4", ["C03/unsound-blame@f.txt:4"],
       "history: an AI session appends a token to line 4 of f.txt (written by a person), commit; the person replaces that token with an own one without any checkpoint; `git reset --soft HEAD~1`; commit => line 4, now entirely written by the person, is reported AI (reset, stash, switch and amend snapshot pending attribution without first recording the person's edits)",
       "c02.person_replaces_ai_token_then_reset_soft", ["unreported_human_edit_before_rewrite"])
